@@ -1,4 +1,4 @@
-import BumpVerif.Proofs.Live
+import BumpVerif.Proofs.Rewind
 /-!
 # C01 — live allocations are in-bounds and never overlap
 
@@ -68,22 +68,23 @@ theorem dealloc_wf {E p sz} (s : St) (hE : EnvOK E) (h : ArenaWF E s.a)
 /-- **Main theorem (all histories).** Start from any arena a constructor returned, with no live
 blocks, and run *any* admissible history — any mix of allocation flavours (fallible or not, typed,
 slices, strings, fills), Allocator-trait `allocate`/`deallocate`/`grow`/`grow_zeroed`/`shrink` on
-any live block in any order, fallible initialisers, `reset`, limit changes — with any allocator
-answers that respect the allocator contract. Then at the end (hence at every point): the arena is
-well-formed; every live block has a `MIN_ALIGN`-aligned non-null address and, if non-empty, lies in
-the used part `[finger, footer)` of a chunk the arena holds; live blocks of non-zero size are
-pairwise disjoint; and no step produced an assertion failure, a wrap-around or UB.
-
-`_partial`: `OpValid` admits a *failing* fallible initialiser only when it allocated nothing in
-the arena (`ok = true ∨ inner = []`). The full statement drops that side condition; the
-excluded case (initialiser allocates in the arena, then fails) is exercised by the
-correspondence run and the overlap/canary oracles on the real crate, see DESIGN §11. -/
-theorem history_partial {E M cap a} (f : Bool) (s0 : St) (hE : EnvOK E) (hM : IsPow2 M) (hMle : M ≤ 16)
+any live block in any order, fallible initialisers that succeed or fail after allocating, keeping
+and releasing blocks in the same arena, `reset`, limit changes — with any allocator answers that
+respect the allocator contract. Then at the end (hence at every point): the arena is well-formed;
+every live block has a `MIN_ALIGN`-aligned non-null address and, if non-empty, lies in the used
+part `[finger, footer)` of a chunk the arena holds; live blocks of non-zero size are pairwise
+disjoint; and no step produced an assertion failure, a wrap-around or UB. -/
+theorem history {E M cap a} (f : Bool) (s0 : St) (hE : EnvOK E) (hM : IsPow2 M) (hMle : M ≤ 16)
     (hctor : (newArena E M cap f s0).2 = .ok a) (ops : List Op)
-    (hrun : RunOK E ops ⟨{ (newArena E M cap f s0).1 with a := a }, []⟩) :
+    (hrun : RunOKFull E ops ⟨{ (newArena E M cap f s0).1 with a := a }, []⟩) :
     LiveInv E (sysRun E ops ⟨{ (newArena E M cap f s0).1 with a := a }, []⟩).1 ∧
     ∀ r ∈ (sysRun E ops ⟨{ (newArena E M cap f s0).1 with a := a }, []⟩).2, ∀ w, r ≠ .bad w :=
-  sysRun_live hE ops _ (init_live _ (ctor_wf f s0 hM hMle hctor) rfl) hrun
+  sysRun_live_full hE ops _ (init_live _ (ctor_wf f s0 hM hMle hctor) rfl) hrun
+
+/-- the same from any state that satisfies the invariant (e.g. after a panic in user code, C16A) -/
+theorem history_from {E} (hE : EnvOK E) (ops : List Op) (y : Sys) (inv : LiveInv E y) (hrun : RunOKFull E ops y) :
+    LiveInv E (sysRun E ops y).1 ∧ ∀ r ∈ (sysRun E ops y).2, ∀ w, r ≠ .bad w :=
+  sysRun_live_full hE ops y inv hrun
 
 /-- what the invariant says about two live blocks -/
 theorem live_blocks_disjoint {E y b c} (inv : LiveInv E y) (hb : b ∈ y.live) (hc : c ∈ y.live) (hne : b ≠ c)
@@ -128,5 +129,6 @@ end Bump.C01
 #print axioms Bump.C01.ctor_wf
 #print axioms Bump.C01.reset_wf
 #print axioms Bump.C01.dealloc_wf
-#print axioms Bump.C01.history_partial
+#print axioms Bump.C01.history
+#print axioms Bump.C01.history_from
 #print axioms Bump.C01.live_blocks_disjoint
